@@ -338,6 +338,29 @@ def gen_child_caps(r, tbl, allow_odd=True, known_writecap_in_ro_slot=False):
     return r.choice([(cw.s + ext, None), (None, cr.s + ext)]) + ("mdmf-hints",)
 
 
+def gen_contradictory_caps(r, tbl):
+    """A child whose read-cap part carries an alleged ro./imm. prefix in front of a WRITE-capable cap (known write cap
+    or the future-test writeable cap), given as an (rw, ro) pair or as a single cap in either slot.  The node maker must
+    refuse it (error node) or at least never let the write cap reach a reader.  Returns (w, ro, label, write_cap)."""
+    if r.random() < 0.65:
+        cw, cr = tbl.add_pair(gen_mutable_pair(r, r.choice(["SSK", "MDMF", "DIR2", "DIR2-MDMF"])))
+        secret = cw.s
+    else:
+        c = tbl.add(Cap(b"x-tahoe-future-test-writeable:" + b32(rb(r, 10)), "futw", label="future-test-writeable"))
+        secret = c.s
+    pre = r.choice([RO, RO, IMM])
+    shape = r.choice(["pair-unknown-rw", "pair-unknown-rw", "single-in-rw-slot", "single-in-ro-slot", "pair-same"])
+    if shape == "pair-unknown-rw":
+        w, ro = tbl.add(unique_other(r)).s, pre + secret
+    elif shape == "single-in-rw-slot":
+        w, ro = pre + secret, None
+    elif shape == "single-in-ro-slot":
+        w, ro = None, pre + secret
+    else:
+        w, ro = pre + secret, pre + secret
+    return w, ro, "contradictory:%s:%s" % (pre.decode().strip("."), shape), secret
+
+
 def gen_outside_caps(r, tbl):
     """Caps outside the round-trip well-formedness: trailing spaces, nested or bare alleged prefixes."""
     c = gen_other(r)
